@@ -46,6 +46,8 @@ GROUPS = {
                 modpath="eval::verif_c13", crate=ENGINE),
     "c11": dict(file="c11.rs", into="weechess-core/src/notation.rs", scope="mod fen", mod="verif_c11", pub=True,
                 modpath="notation::fen::verif_c11", crate=CORE),
+    "c01p": dict(file="c01_perft.rs", into="weechess-engine/src/searcher.rs", scope=None, mod="verif_c01_perft", pub=False,
+                 modpath="searcher::verif_c01_perft", crate=ENGINE),
 }
 
 # closure bodies extracted verbatim into a function so that they can be put under contract
@@ -81,6 +83,7 @@ def mod(e):
 CONTRACTS = [
     # crate attribute needed by the Vec::push model in kani/c01.rs (generic over the allocator)
     dict(file="weechess-core/src/lib.rs", crate_attr="#![cfg_attr(kani, feature(allocator_api))]"),
+    dict(file="weechess-engine/src/lib.rs", crate_attr="#![cfg_attr(kani, feature(allocator_api))]"),
     # ---- C20: compact bit-field primitives
     dict(file="weechess-core/src/moves.rs", scope="mod compact", fn="store", attrs=[
         req("offset < 32"),
@@ -338,6 +341,12 @@ PROPS["C01"] = dict(
           "equal the squares the rules name", functions=["common::*"]),
         K("c01", "c01_k4_try_as_legal_move", desc="K4 try_as_legal_move: Some(mv, next) iff the mover's king is not attacked in "
           "next == by_performing_move(state, mv); fully symbolic position and move", functions=["PseudoLegalMove::try_as_legal_move"], timeout=2400),
+        K("c01p", "c01_perft_counts_the_legal_tree", kind="bounded", bound="depth <= 2, <= 2 legal moves per node (every shape of such a tree)",
+          desc="Searcher::perft_recursive with the generator replaced by its contract: the count is the number of leaves of the legal-move tree at "
+          "that depth, and the per-root-move callback receives each subtree's size", functions=["Searcher::perft_recursive"], timeout=5400, tier="thorough", heavy=True, mem_gb=40),
+        K("c01", "c01_k0_pseudo_legal_runs_all_six_generators", desc="K0 compute_psuedo_legal_moves_into clears the list and runs the pawn, knight, "
+          "king, bishop, rook and queen generators exactly once each on the same position, each appending to what the others produced",
+          functions=["MoveGenerator::compute_psuedo_legal_moves_into"], timeout=1500),
         K("c01", "c01_k5_legal_moves_is_filter", kind="bounded", bound="pseudo-legal lists of three arbitrary moves, all eight accept/reject patterns", desc="K5 compute_legal_moves_into == order-preserving "
           "filter of the pseudo-legal list by the legality oracle; stale buffer content does not leak",
           functions=["MoveGenerator::compute_legal_moves_into", "MoveGenerationBuffer::clear"], timeout=2400),
